@@ -64,9 +64,39 @@ class E3:
                     ob.known_key = known[pname]
                     ob.status = "known_candidate"
                 if replayer:
-                    replayer(ob, sched, pname)
+                    replayer(ob, sched, pname, model, name)
             ob, q = check.discharge(self.res, f"{name}:{pname}", desc, bounds, base + list(extra or []) + [sc.all_done(), viol],
                                     expect_unsat=True, timeout=timeout, on_model=on_model)
             if ob.status == "known_candidate":
                 ob.status = "known" if ob.reproduced is not False else "error"
+            elif ob.status == "violation" and ob.reproduced is False:
+                ob.status = "error"
         return self.res.obligations
+
+
+def native_replayer(pid, binname, roles, inputs=None):
+    """roles: {tid: role string}; inputs: {name: z3 term} evaluated in the counterexample model"""
+    import replay_e3
+
+    def rp(ob, sched, pname, model, scen):
+        vals = {}
+        for k, t in (inputs or {}).items():
+            try:
+                vals[k] = model.eval(t, model_completion=True).as_long()
+            except Exception:
+                pass
+        txt = replay_e3.plan_text(scen, pname, roles, sched, vals)
+        pp = os.path.join(REPLAYS, pid, f"{scen}.{pname}.plan")
+        open(pp, "w").write(txt)
+        status, out = replay_e3.run(binname, pp)
+        ob.detail += f" | native replay ({binname}, instrumented scratch copy): {status}"
+        if ob.sample:
+            ob.sample["native_replay"] = {"status": status, "output": out[-600:], "plan": pp}
+        if status == "reproduced":
+            ob.reproduced = True
+            ob.replay = pp
+        else:
+            ob.reproduced = False
+            ob.status = "error"
+            ob.detail += " — counterexample did NOT reproduce natively: treated as an encoder/model problem, not reported as a violation"
+    return rp
